@@ -315,3 +315,8 @@ package common
 //@   ensures len(self.buf) == len(old(self.buf)) + 32
 //@   ensures forall i uint64 :: i < uint64(len(old(self.buf))) ==> self.buf[i] == old(self.buf[i])
 //@   ensures packbytes(self.buf, uint64(len(old(self.buf))), 32) == hash
+
+//@ func NewZeroCopySource
+//@   property C01
+//@   ensures result != nil && result.off == 0 && result.s == b
+//@   fresh result
